@@ -426,8 +426,10 @@ void World::after_step(const StepEffect& e)
         if (e.expect_unchanged)
         {
             std::string a = prev.serialize(), b = cur.serialize();
-            bool post_commit = faulted && e.fault.kind != FK_STMT && have_accept_post &&
-                               cur.hash() == accept_post_hash;
+            // only faults that SQLite can report after its commit point (I/O, interrupt, allocation) may leave the
+            // fault-free post-state behind; a statement refused with BUSY (F1, F9) has committed nothing
+            bool post_commit = faulted && (e.fault.kind == FK_TICK || e.fault.kind == FK_VFS || e.fault.kind == FK_MALLOC) &&
+                               have_accept_post && cur.hash() == accept_post_hash;
             if (a != b && !post_commit)
             {
                 bool by_fault = faulted || e.out.step_errors > 0;
